@@ -81,3 +81,5 @@ func (n *ndWriter) Write(v any) {
 }
 
 func (n *ndWriter) Close() { n.w.Flush(); n.f.Close() }
+
+func jsonMarshal(v any) ([]byte, error) { return json.Marshal(v) }
